@@ -21,7 +21,7 @@ META = dict(
     id='C11',
     level='proof',
     technique='Coq proof about the modelled mechanisms (buffer-copy arithmetic over a site list regenerated from the source, parser nesting depth, division guards, period-stepping variant) + differential correspondence of the extracted model against ledger on boundary inputs + observation (signals, timeouts, exit status, ASan/UBSan in the thorough tier) on boundary, truncated and mutated inputs',
-    level_text='PARTIAL. Proved in coq/Properties/Properties_C11.v: (a) for every fixed char buffer of src/*.cc,*.h and every statement that writes through it (list regenerated from the source on each run; unclassifiable statements fail closed) the bytes stored never exceed the capacity, for every input length; the READ_INTO macro is transcribed and its bound proved; (b) every expression the recursive-descent parser accepts nests at most src_parse_depth_limit deep and fetches at most src_expr_token_limit tokens (both constants and their guards are read from the source), while without those guards depth and length are unbounded; (c) every division cell of the amount/balance/value model tests the operand it divides by, so a zero divisor never yields a quotient; (d) the period-stepping loop of date_interval_t::stabilize has a strictly increasing variant for every quantity the period parser accepts, and never terminates for a zero quantity (which the source rejects); the guards added by the repairs (query nesting/terms, roundto places, conversion cycles, missing expression argument, script loop, generated transactions without journal, find_account frame buffer) are recognised in the source and their presence is a theorem. The model is tied to the code by the regenerated tables and by comparing predicted outcome classes with freshly built ledger on boundary inputs (every site constant +/-2, 255/256/257 parentheses, 4095/4096/4097 tokens, 2047/2048 query terms, 65535/65536 places, ...). NOT covered: memory safety, absence of undefined behaviour and bounded stack use of the compiled program in general (heap objects, iterators, std::string, boost, the report/filter code, integer overflow) - for these the check only observes (signals, timeouts, exit status, sanitizer reports in the thorough tier) on boundary-directed, truncated and mutated inputs; two use-after-free defects found that way are listed as findings (F46, F48).',
+    level_text='PARTIAL. Proved in coq/Properties/Properties_C11.v: (a) for every fixed char buffer of src/*.cc,*.h and every statement that writes through it (list regenerated from the source on each run; unclassifiable statements fail closed) the bytes stored never exceed the capacity, for every input length; the READ_INTO macro is transcribed and its bound proved; (b) every expression the recursive-descent parser accepts nests at most src_parse_depth_limit deep and fetches at most src_expr_token_limit tokens (both constants and their guards are read from the source), while without those guards depth and length are unbounded; (c) every division cell of the amount/balance/value model tests the operand it divides by, so a zero divisor never yields a quotient; (d) the period-stepping loop of date_interval_t::stabilize has a strictly increasing variant for every quantity the period parser accepts, and never terminates for a zero quantity (which the source rejects); (e) the `%$N` prior-field reference of format strings, a walk along the element list of the template, never dereferences the null pointer with the tests the source has (its exact bounds are proved for the guarded and the unguarded loop); the guards added by the repairs (query nesting/terms, roundto places, conversion cycles, missing expression argument, script loop, generated transactions without journal, find_account frame buffer) are recognised in the source and their presence is a theorem. The model is tied to the code by the regenerated tables and by comparing predicted outcome classes with freshly built ledger on boundary inputs (every site constant +/-2, 255/256/257 parentheses, 4095/4096/4097 tokens, 256/257 query terms, 65535/65536 places, `%$N` for N = 1..F against templates of 0..16 fields, ...). NOT covered: memory safety, absence of undefined behaviour and bounded stack use of the compiled program in general (heap objects, iterators, std::string, boost, the report/filter code, integer overflow) - for these the check only observes (signals, timeouts, exit status, sanitizer reports in the thorough tier) on boundary-directed, truncated and mutated inputs; defects found that way and not yet repaired are listed as findings (F46, F48 use after free; F50 conversion through an annotated commodity, F51 self-referring definitions, F52 unbounded format widths - patches prepared).',
     level_note='Trusted: Coq kernel; the translator harness/translators/c11_buffers.py (narrow patterns, fail closed) for the site list and guard constants; extraction + OCaml driver + python harness for the correspondence; the calendar is not modelled in (d) (month steps only by the lower bound 28 days per month); the assumption that `line` in textual.cc always points into parse_context_t::linebuf. Sanitizer observation exists only in the thorough tier.',
     design_ref='DESIGN.md section 7 C11, section 12',
     assumptions=['stack limit of the test environment is the default 8 MiB (the crash depth of findings F4/F38 depends on it)',
@@ -647,6 +647,20 @@ def long_tokens(ctx, res, binary=None, env=None, sanitizer=False):
     # a conversion directive naming one commodity on both sides
     for t in ['C 1 a = 2 a\n', 'C $4 = $-110\n', 'C 1 a = 2 b\nC 1 b = 2 a\n', 'C 1 a = 2 b\nC 1 b = 2 c\nC 1 c = 2 a\n']:
         cases.append(Case('commodity-conversion-self', t + '2020/01/01 p\n  A  2 a\n  A  $2\n  B\n', ['bal'], info=E('error')))
+    # the same through an annotated commodity, which shares its base's links (F50 until repaired:
+    # the expected class is 'error' as soon as the translator sees the repair in the source)
+    for t in ['C 1 a {$1} = 2 a\n', 'C 1 a = 2 a {$1}\n', 'C 1 a {$1} = 2 b\nC 1 b = 2 a [2020/01/01]\n']:
+        cases.append(Case('commodity-conversion-annotated-self', t + '2020/01/01 p\n  A  2 a\n  B\n', ['bal'],
+                          info=E('error') if GUARDS.get('conversion_cycle_by_referent') else {}))
+    cases.append(Case('commodity-conversion', 'C 1 a {$1} = 2 b\n2020/01/01 p\n  A  2 a\n  B\n', ['bal'], info=E('ok')))
+    # definitions that refer to each other (F51 until repaired)
+    dj = 'define foo = bar\ndefine bar = foo\n' + j
+    for a in (['reg', '--amount', 'foo(1)'], ['reg', '--amount', 'foo'], ['bal', '-l', 'foo']):
+        cases.append(Case('define-recursion', dj, a + NOW, info=E('error') if GUARDS.get('calc_depth_limit') else {}))
+    cases.append(Case('define-recursion', 'define f(x) = f(x)\n' + j, ['reg', '--amount', 'f(1)'] + NOW,
+                      info=E('error') if GUARDS.get('calc_depth_limit') else {}))
+    cases.append(Case('define-recursion', None, ['eval', 'f(x)=g(x); g(x)=f(x); f(1)']))
+    cases.append(Case('define', 'define twice(x) = x * 2\n' + j, ['reg', '--amount', 'twice(amount)'] + NOW, info=E('ok')))
     cases.append(Case('commodity-conversion', 'C 1.00 Kb = 1024 b\nC 1.00 Mb = 1024 Kb\n2020/01/01 p\n  A  2000000 b\n  B\n', ['bal'], info=E('ok')))
     cases.append(Case('commodity-conversion', 'C 1 a = 2 b\nC 1 b = 2 c\n2020/01/01 p\n  A  2 a\n  B\n', ['bal'], info=E('ok')))
     # the xact/entry command adds the drafted transaction to the journal after the parse context is gone
@@ -721,6 +735,122 @@ def long_tokens(ctx, res, binary=None, env=None, sanitizer=False):
                 res.disagreements.append(dict(name='C11/directed:' + c.construct, case=dict(args=[a[:80] for a in c.args[:8]], n=len(c.args)),
                                               impl=got, model=exp))
     return cases
+
+
+# ------------------------------------------------------------------------------ format strings
+
+FMT_JOURNAL = ('P 2020/01/01 AAA $2\n~ Monthly\n  Expenses:Rent  $5.00\n  Assets\n\n'
+               '2020/01/15 * (c1) payee one  ; note\n  Expenses:Rent  $5.00\n  Assets:Cash\n'
+               '2020/02/15 payee two\n  Assets:Stock  3 AAA @ $2\n  Assets:Cash\n')
+FMT_COMMANDS = [('reg', '--format'), ('reg', '-F'), ('reg', '--register-format'), ('bal', '--format'), ('bal', '--balance-format'),
+                ('csv', '--csv-format'), ('prices', '--prices-format'), ('pricedb', '--pricedb-format'), ('cleared', '--cleared-format'),
+                ('budget', '--budget-format'), ('print', '--format'), ('equity', '--format'), ('accounts', '--format'), ('payees', '--format')]
+# verbs whose report really parses the format given by that option (the others ignore it)
+FMT_PARSING = {('reg', '--format'), ('reg', '-F'), ('reg', '--register-format'), ('bal', '--format'), ('bal', '--balance-format'),
+               ('csv', '--csv-format'), ('prices', '--prices-format'), ('pricedb', '--pricedb-format'), ('cleared', '--cleared-format'),
+               ('budget', '--budget-format')}
+FMT_OTHER_OPTIONS = [('reg', ['--prepend-format']), ('bal', ['--prepend-format']), ('reg', ['--group-by', 'payee', '--group-title-format']),
+                     ('reg', ['-j', '--plot-amount-format']), ('reg', ['-J', '--plot-total-format']), ('reg', ['--date-format']),
+                     ('reg', ['--datetime-format']), ('reg', ['--input-date-format'])]
+FMT_MALFORMED = ['%', '%-', '%--', '%.', '%..', '%20', '%-20', '%20.', '%20.5', '%-20.5', '%(', '%((', '%(account', '%(account))', '%()', '%{', '%{amount',
+                 '%{}', '%[', '%[%Y', '%[%Y]', '%]', '%}', '%)', '%$', '%$0', '%$1', '%$9', '%$A', '%$F', '%$G', '%$a', '%$$', '%$-1', '%$10', '%%', '%%%',
+                 '%Z', '%z', '%1', '%01', '%00000000', '%-0', '%\\', '\\', '%/', '%/%/', '%/%/%/', '%/%/%/%/', '%/%', '%/%$', '%/%$0', '%/%$G', '%/%$1',
+                 '%/%$2', '%/%$F', '%/%/%$1', '%/%/%$F', '%(account)%/%$1%/%$2', '%(account)%/%/%$1', '%(account)%/%$1%$1%$1', '%/%(account)%/%$1',
+                 '%20(account)', '%-20.10(account)', '%.5(account)', '%0.0(account)', '%1000(account)', '%100000(account)', '%1000000(account)',
+                 '%-1000.1000(account)', '%20P', '%20.20T', '%1000t', '%(1/0)', '%(to_int(1)/to_int(0))', '%(account', "%('", '%(")', '%(/', '%(]',
+                 '%(account)' * 50, '%(' + '(' * 300 + '1' + ')' * 300 + ')', '%(' + '+'.join(['1'] * 3000) + ')', '%' + '-' * 5000, '%' + '%' * 4999,
+                 '%(a' + 'x' * 5000 + ')', 'a' * 70000, '\\' * 3001, '%(account)\\', '%(account)%', 'x%', '\xff\xfe%(account)\xff']
+# widths so large that the padding is gigabytes: one probe only (it is a known finding while unrepaired)
+FMT_HUGE_WIDTH = ['%.99999999999(account)\n']
+
+
+def template_text(kinds):
+    """a first part whose element list has exactly these kinds: E = %(7) (valid in every scope), S = literal text"""
+    out = ''
+    for i, k in enumerate(kinds):
+        out += '%(7)' if k == 'E' else '|x'[i % 2]
+    return out
+
+
+def formats(ctx, res, binary=None, env=None, sanitizer=False):
+    rng = ctx.rng
+    cases, lines = [], []
+    digits = '123456789ABCDEF'
+    shapes = []
+    for f in range(0, 17):
+        ke = 'S'.join(['E'] * f)                    # E S E ... E : f fields separated by literals
+        shapes += [ke, ('S' + ke) if f else 'S', 'E' * f, (ke + 'S') if f else '']
+    shapes = sorted(set(shapes), key=lambda k: (k.count('E'), k))
+    combos = [(k, d) for k in shapes for d in digits + '0G']
+    want = ctx.scale(700, len(combos) * 2)
+    if want < len(combos):
+        # every template size against every index once, the rest sampled
+        base = [(k, d) for k in shapes if set(k) <= {'E', 'S'} and k == 'S'.join(['E'] * k.count('E')) for d in digits]
+        combos = base + rng.sample([c for c in combos if c not in base], max(0, want - len(base)))
+    for i, (kinds, d) in enumerate(combos):
+        verb, opt = rng.choice(sorted(FMT_PARSING))
+        part = rng.choice([2, 2, 3])
+        first = template_text(kinds)
+        fmt = first + '\\n%/' + ('--\\n%/' if part == 3 else '') + '%$' + d + ' ;\\n'
+        kinds_eff = kinds + 'S'                    # the trailing \n of the first part is a STRING element
+        index = digits.index(d) + 1 if d in digits else (0 if d == '0' else 16)
+        cases.append(Case('format-field-ref', FMT_JOURNAL, [verb, opt, fmt] + NOW, info=dict(kinds=kinds_eff, index=index, d=d, fmt=fmt)))
+        lines.append(lib.sx(['fieldref', 'f%d' % i, kinds_eff, index]))
+    mal = []
+    for j, t in enumerate(FMT_MALFORMED):
+        for verb, opt in (FMT_COMMANDS if len(t) < 200 else FMT_COMMANDS[:5]):
+            mal.append(Case('format-directive', FMT_JOURNAL, [verb, opt, t] + NOW, info=dict(t=t[:40])))
+        for verb, opts in FMT_OTHER_OPTIONS:
+            mal.append(Case('format-directive', FMT_JOURNAL, [verb] + opts + [t] + NOW, info=dict(t=t[:40])))
+        mal.append(Case('format-directive', FMT_JOURNAL, ['reg', '--format', '%(account)\\n%/' + t] + NOW, info=dict(t=t[:40])))
+    wl = GUARDS.get('format_width_limit')
+    huge = list(FMT_HUGE_WIDTH)
+    if wl:
+        huge += ['%99999999999999999999(account)\\n', '%%%d(account)\\n' % (wl + 1), '%%.%d(account)\\n' % (wl + 1), '%%%d.%d(account)\\n' % (wl + 1, wl + 1)]
+        for w in (wl - 1, wl):
+            mal.append(Case('format-width', FMT_JOURNAL, ['reg', '--format', '%%.%d(account)|\\n' % w] + NOW, info=dict(expect='ok')))
+    for t in huge:
+        mal.append(Case('format-huge-width', FMT_JOURNAL, ['reg', '--format', t] + NOW, info=dict(t=t, expect='error' if wl else None)))
+    if sanitizer:
+        mal = mal[::3]
+    run_cases(ctx, cases + mal, 'fmt', binary, env)
+    model = lib.run_model('C11', lines) if not sanitizer else [''] * len(cases)
+    for case, ml in zip(cases, model):
+        res.evaluations += 1
+        res.count('format:field-ref')
+        add_violations(res, case, judge(case, sanitizer))
+        if sanitizer:
+            continue
+        res.traces += 1
+        verdict = ml.split(' ')[1]
+        res.count('format:field-ref:' + verdict)
+        info = case.info
+        nexpr = info['kinds'][1:].count('E')
+        if abs(info['index'] - (nexpr + 2)) <= 2:
+            res.nontrivial.add('fieldref:%s:%s' % (info['kinds'], info['d']))
+        got = obs_class(case)
+        if got.startswith('signal') or got == 'timeout':
+            continue
+        exp = 'ok' if verdict == 'Found' else 'error'
+        if verdict == 'Crash':
+            res.disagreements.append(dict(name='C11/format-field-ref-model', case=info['fmt'], impl=got, model=ml))
+        elif got != exp:
+            res.disagreements.append(dict(name='C11/format-field-ref', case=dict(fmt=info['fmt'], args=case.args[:2]), impl=got, model=ml))
+        elif exp == 'error':
+            err = case.result[2]
+            msg = b'non-existent prior field' if verdict == 'NoSuchField' else b'must be a digit'
+            if msg not in err:
+                res.disagreements.append(dict(name='C11/format-field-ref-message', case=info['fmt'], impl=err[-120:].decode('latin-1'), model=ml))
+    for c in mal:
+        res.evaluations += 1
+        res.count('format:directive')
+        add_violations(res, c, judge(c, sanitizer))
+        exp = c.info.get('expect')
+        got = obs_class(c)
+        if exp and not sanitizer and got != exp and got != 'timeout' and not got.startswith('signal'):
+            res.disagreements.append(dict(name='C11/directed:' + c.construct, case=c.args[2][:80], impl=got, model=exp))
+    if len(res.samples) < 7 and cases:
+        res.samples.append(dict(construct='format-field-ref', format=cases[0].info['fmt'], impl=obs_class(cases[0]), model=model[0]))
 
 
 # ------------------------------------------------------------------------------ mutation stream
@@ -1107,6 +1237,7 @@ def sanitizer_tier(ctx, res, sites):
         buffers(ctx, sub, sites, binary, env, sanitizer=True, compare=False)
         truncated(ctx, sub, binary, env, sanitizer=True)
         long_tokens(ctx, sub, binary, env, sanitizer=True)
+        formats(ctx, sub, binary, env, sanitizer=True)
         periods_s = lib.Result()
         nesting_light(ctx, sub, binary, env)
         mutation(ctx, sub, ctx.scale(0, 400), binary, env, sanitizer=True, tag="smut")
@@ -1133,8 +1264,13 @@ def nesting_light(ctx, res, binary, env):
 
 # ------------------------------------------------------------------------------ entry points
 
+GUARDS = {}
+
+
 def scan_sites():
     sites, consts, flags = c11_buffers.scan(lib.REPO)
+    GUARDS.clear()
+    GUARDS.update(c11_buffers.scan_guards(lib.REPO, consts, flags))
     return sites
 
 
@@ -1158,8 +1294,8 @@ def run(ctx, light=False):
     phases = [('buffers', lambda: buffers(ctx, res, sites)), ('escapes', lambda: escapes(ctx, res)),
               ('nesting', lambda: nesting(ctx, res)), ('division', lambda: division(ctx, res)),
               ('periods', lambda: periods(ctx, res)), ('truncated', lambda: truncated(ctx, res)),
-              ('long_tokens', lambda: long_tokens(ctx, res)),
-              ('mutation', lambda: mutation(ctx, res, ctx.scale(8000, 16000)))]
+              ('long_tokens', lambda: long_tokens(ctx, res)), ('formats', lambda: formats(ctx, res)),
+              ('mutation', lambda: mutation(ctx, res, ctx.scale(6000, 16000)))]
     if ctx.tier == 'thorough' and not light:
         phases.append(('sanitizer', lambda: sanitizer_tier(ctx, res, sites)))
     res.extra['phase_wall_s'] = {}
@@ -1181,6 +1317,7 @@ def search(ctx, broken):
         sites = scan_sites()
         buffers(ctx, r, sites, compare=False)
         long_tokens(ctx, r)
+        formats(ctx, r)
         mutation(ctx, r, 6000, tag='srch')
         known = [k for k in lib.load_known_findings() if k['prop'] == 'C11']
         new = [v for v in r.violations if not any(re.fullmatch(k['match'], v['key']) for k in known)]
